@@ -602,6 +602,11 @@ def judge(sc, o, res):
                     res.probe("negative-start-positive-stop-long-flow")
             elif s.stop is not None and s.stop < 0:
                 res.probe("negative-stop-slice")
+            elif s.stop is not None and o.exhausted and (sc.n is None or sc.n > s.stop) \
+                    and (s.start or 0) < s.stop:
+                # the consumer asked for one more result than the slice allows: that last next()
+                # may legitimately drain the input up to `stop` (see the Reading in DESIGN.md)
+                res.probe("islice-drain-at-end")
         if x.kind == "count":
             res.probe("count-lookahead")
 
@@ -668,7 +673,7 @@ def judge(sc, o, res):
                      "%d original input objects were alive at once; the documented holds allow %d "
                      "(flow length %s)" % (o.max_alive, sc.live_bound, sc.n))
             return
-        res.probe("liveness-slack-max", 0)
+        res.probe("liveness-checked-within-bound")
 
 
 def _culprit_of_event(sc, e):
